@@ -99,6 +99,70 @@ def shrink_project(p, pred):
     return cur
 
 
+def seq_spec_leg(res, prop, spec, rng, projects, a, known_matcher=None):
+    """Edits of a base project generated back to back in ONE process (seqleg, `spec-and-routes`); the property oracle
+    and the model are evaluated on the document of every edit, both the one a fresh process wrote and the one the
+    shared process wrote (None when no document exists: the edit was refused)."""
+    import seqleg
+    stats = {"sequences": 0, "steps": 0, "documents": 0, "byte_differences": 0, "property_oracle_failures": 0}
+    rp = json.load(open(a.replay)) if a.replay else None
+    if rp and "sequence" not in rp["input"]:
+        return stats
+    if rp:
+        seqs = [(rp.get("openapi", "3.0.0"), [(x["edit"], x["project"]) for x in rp["input"]["sequence"]])]
+    else:
+        nb = 1 if a.tier == "quick" else 8
+        bases = [p for p in projects if p["controllers"] and p["controllers"][0]["methods"]][-nb:]
+        seqs = [(projrun.VERSIONS[i % 2], seqleg.edits(rng, b)) for i, b in enumerate(bases)]
+    cases, meta, all_steps = [], [], []
+    import concurrent.futures
+    with concurrent.futures.ThreadPoolExecutor(max_workers=4) as ex:
+        ran = list(ex.map(lambda x: seqleg.run_sequence(prop, "s%d" % x[0], x[1][1], openapi=x[1][0]), enumerate(seqs)))
+    for bi, (v, seq) in enumerate(seqs):
+        steps = ran[bi]
+        all_steps.append((v, steps))
+        stats["sequences"] += 1
+        stats["steps"] += len(steps)
+        stats["byte_differences"] += len(seqleg.differences(steps, "spec"))
+        for si, st in enumerate(steps):
+            for which in ("fresh", "inproc"):
+                data = st[which]["spec"]
+                doc = None
+                if data is not None:
+                    try:
+                        doc = json.loads(data)
+                    except ValueError:
+                        doc = None
+                    stats["documents"] += 1
+                cases.append((st["project"], specobs.doc_obs(doc)))
+                meta.append((bi, si, which))
+    disagree, propfail = evaluate(prop, spec, cases, "seq")
+    reported = 0
+    for i in propfail:
+        bi, si, which = meta[i]
+        v, steps = all_steps[bi]
+        st = steps[si]
+        if known_matcher:
+            pseudo = {"ops": cases[i][1], "exit": st["fresh"]["exit"], "out": st["fresh"]["out"], "spec": None}
+            hit = known_matcher(st["project"], pseudo)
+            if hit:
+                res.known(hit[0], hit[1])
+                continue
+        stats["property_oracle_failures"] += 1
+        if reported >= 2:
+            continue
+        reported += 1
+        res.violation({"kind": "property-fails-on-implementation", "openapi": v,
+                       "leg": "sequence of generations (%s)" % ("fresh process, generate spec-and-routes" if which == "fresh"
+                                                                else "one process, library entry point cmd.GenerateSpecAndRoutes"),
+                       "input": {"sequence": seqleg.describe_sequence(steps, si)}, "failing_step": si, "edit": st["label"],
+                       "implementation_operations": cases[i][1],
+                       "generation_error": st["inproc"]["error"] if which == "inproc" else st["fresh"]["out"][-400:],
+                       "claim": spec["oracle"] + " evaluated on the document written for the project on disk is false "
+                                "(whatever was generated earlier in the same process)"})
+    return stats
+
+
 def run(prop, spec, gen_opts, n_quick, n_thorough, rule, assumptions, nontrivial, extra_cases=None,
         known_matcher=None, post=None):
     a, seed = args_for(prop)
@@ -109,7 +173,8 @@ def run(prop, spec, gen_opts, n_quick, n_thorough, rule, assumptions, nontrivial
     projects = []
     corpus_file = os.path.join(CORPUS, prop + ".json")
     if a.replay:
-        projects = [json.load(open(a.replay))["input"]]
+        rin = json.load(open(a.replay))["input"]
+        projects = [rin["sequence"][-1]["project"]] if "sequence" in rin else [rin]
     else:
         if os.path.exists(corpus_file):
             projects += json.load(open(corpus_file))
@@ -175,6 +240,7 @@ def run(prop, spec, gen_opts, n_quick, n_thorough, rule, assumptions, nontrivial
                                "documents of this run" % len(cases)}, no_input=True)
     if post:
         post(res, projects, obs)
+    seqstats = seq_spec_leg(res, prop, spec, rng, projects, a, known_matcher)
     distinct = set()
     for (p, ops) in cases:
         if nontrivial(p, ops):
@@ -186,6 +252,7 @@ def run(prop, spec, gen_opts, n_quick, n_thorough, rule, assumptions, nontrivial
                     for i in range(min(2, len(cases)))],
         "traces_validated_against_impl": len(cases) - len(disagree),
         "disagreements": len(disagree), "property_oracle_failures": len(propfail),
+        "generation_sequences": seqstats,
         "input_distribution": {
             "projects": len(projects), "cli_runs": len(cases),
             "controllers": sum(len(p["controllers"]) for p in projects),
